@@ -203,8 +203,18 @@ def special(rng, npts):
     return [[rng.choice([0, 1, MASK, MASK - 1, rng.next() & MASK]) for _ in range(3)] for _ in range(npts)]
 
 
-OMODES = ["random", "lattice-coplanar", "coplanar+ulps", "rounded-coplanar", "special"]
-IMODES = ["random", "lattice-cospherical", "cospherical+ulps", "rounded-cospherical", "special", "coplanar-base"]
+def threshold(rng, pts):
+    """correspondence of the error bound itself: move one coordinate of a degenerate configuration by 10^3..10^9 ulp so that
+    |result| sweeps across errbound = 1e-10 * magnitude (outside the 1..1000 ulp of the property's quantifier on purpose)"""
+    pts = [list(p) for p in pts]
+    i, k = rng.below(len(pts)), rng.below(3)
+    amt = int(10.0 ** (3.0 + 6.0 * rng.uniform()))
+    pts[i][k] = clampm(pts[i][k] + (amt if rng.below(2) else -amt))
+    return pts
+
+
+OMODES = ["random", "lattice-coplanar", "coplanar+ulps", "rounded-coplanar", "special", "filter-threshold"]
+IMODES = ["random", "lattice-cospherical", "cospherical+ulps", "rounded-cospherical", "special", "coplanar-base", "filter-threshold"]
 
 
 def gen_orient(rng, mode):
@@ -216,6 +226,8 @@ def gen_orient(rng, mode):
         return perturb(rng, lattice_plane(rng))
     if mode == 3:
         return near_plane(rng)
+    if mode == 5:
+        return threshold(rng, near_plane(rng) if rng.below(2) else lattice_plane(rng))
     return special(rng, 4)
 
 
@@ -230,6 +242,8 @@ def gen_insphere(rng, mode):
         return near_sphere(rng)
     if mode == 4:
         return special(rng, 5)
+    if mode == 6:
+        return threshold(rng, near_sphere(rng) if rng.below(2) else lattice_sphere(rng))
     return lattice_plane(rng) + [[rnd_mant(rng) for _ in range(3)]]
 
 
@@ -317,8 +331,8 @@ def run(ck):
     if not okm:
         ck.breaks.append("model extraction/build failed:\n" + logm[-2000:])
     rng = ck.rng
-    n_o = 2500 if ck.quick else 40000
-    n_i = 2000 if ck.quick else 30000
+    n_o = 2400 if ck.quick else 24000
+    n_i = 2100 if ck.quick else 17500
     n_po = 3 if ck.quick else 12        # per mode: cases run under all 24 permutations
     n_pi = 2 if ck.quick else 6         # per mode: cases run under all 120 permutations
     lines, meta = [], []               # meta: (kind, mode, group id or None, parity)
@@ -416,7 +430,7 @@ def run(ck):
         cov["evaluations"] = sum(1 for k in range(n) if meta[k][0] in "OI")
         cov["distinct_nontrivial"] = len(nontriv)
         cov["rule"] = ("inputs = points with all coordinates in [1,2) as bit patterns from SplitMix64(VERIF_SEED): orient3d modes %s; insphere modes %s "
-                       "(lattices 1+k*2^-L, L in 10..52; '+ulps' moves 1, 3 or all coordinates by 1..1000 ulp; 'rounded' = degenerate up to coordinate rounding); "
+                       "(lattices 1+k*2^-L, L in 10..52; '+ulps' moves 1, 3 or all coordinates by 1..1000 ulp; 'rounded' = degenerate up to coordinate rounding; 'filter-threshold' moves one coordinate of a degenerate configuration by 1e3..1e9 ulp so that |result| sweeps across errbound); "
                        "%d/%d cases per mode additionally under all 24/120 argument permutations. evaluations = predicate inputs on which the four outputs "
                        "(exact sign, adaptive sign, filter decided, filter answer) of the real functions and of the extracted model are compared; "
                        "an input is non-trivial when the filter could not decide (determinant exactly 0 or inside the error bound); distinct = distinct such input lines"
@@ -453,9 +467,14 @@ def run(ck):
         if bad and not ck.violations:
             ck.breaks.append("oracle failures without a reportable line")
     ck.assumptions += [
-        "binary64 arithmetic of the model is Coq's PrimFloat extracted through ExtrOCamlFloats to OCaml's float (coq-core.kernel Float64); the harness is compiled with -std=c++11 -O1 (no FMA contraction, SSE2 doubles)",
+        "hand model of ExactGeometricTests.hpp (coq/Cxx/C17_Defs.v) tied to the header by this run: four outputs per input compared, 'filter decided' observed on the real "
+        "filter code through a second compilation of the header whose exact fall back throws",
+        "binary64 arithmetic of the model is Coq's PrimFloat (FloatAxioms link it to SpecFloat/Flocq's binary_float); it is extracted through ExtrOCamlFloats to OCaml's float; "
+        "the harness is compiled as the repository is (-std=c++11, hence -ffp-contract=off, SSE2 doubles): a build with -ffast-math (ACTIVATE_FAST_MATH) or FMA contraction "
+        "evaluates a different expression; C17_filter_sound leaves a factor ~4e4 between the proved rounding error and 1e-10, but that is not proved for such builds",
         "an unchecked fixed width cpp_int drops the bits above its width; only used to make an overflow visible (C17_no_overflow_* shows it never happens for mantissas < 2^52)",
-        "inputs outside [1,2) are outside the property (get_mantissa ignores sign and exponent); the callers normalise coordinates first",
+        "inputs outside [1,2) are outside the property (get_mantissa ignores sign and exponent; nothing in the header checks the range); the callers normalise coordinates first",
+        "all of (i)-(v) are proved for all inputs in range; nothing is left partial (C17_filter_sound is the full theorem of DESIGN A.6 instantiated for both filters)",
     ]
     ck.resolve_breaks_without_input()
 
